@@ -34,6 +34,7 @@ class Stop(System):
 class BM(Model):
     __slots__ = ['a', 'b', 'stop', 'timestep']        # `timestep` here is the user's own attribute (a step length)
     built = []
+    inner = []
     bad = None
     bad_kind = "Boom"
     own_timestep = None
@@ -62,6 +63,38 @@ class BMOwnExecute(BM):
         super().execute(n)
         if self.systems.timestep >= 1:
             self.complete()
+
+
+class Probe(Model):
+    """the inner model of a look-ahead sub-simulation"""
+    __slots__ = ['k']
+
+    def __init__(self, k):
+        super().__init__(logger=NULL_LOGGER)
+        self.k = k
+        self.systems.add_system(RecK("rk", self))
+
+
+class RecK(Collector):
+    def collect(self):
+        self.records.append(("probe", self.model.k, self.model.systems.timestep))
+
+
+class LookAhead(System):
+    """at timestep 0 runs a small batch of its own (a look-ahead): the runner is re-entered from inside an execution"""
+
+    def execute(self):
+        if self.model.systems.timestep == 0:
+            inner = B.batch_run(Probe, {"k": [7, 8]}, collectors="rk", processes=1, max_timesteps=1)
+            BM.inner.append(inner)
+
+
+class BMNested(BM):
+    __slots__ = []
+
+    def __init__(self, a, b, stop):
+        super().__init__(a, b, stop)
+        self.systems.add_system(LookAhead("look", self, priority=3))
 
 
 class Swap(System):
@@ -123,8 +156,16 @@ def serial(na: int, nb: int, reps: int, mx: int, stop: int) -> bool:
         pl.remove_parameter("junk")
         params = pl
     variant = hx.P.get('model', 'plain')
-    cls = BMOwnExecute if variant == 'own_execute' else BMSwap if variant == 'swap_collector' else BM
-    res = B.batch_run(cls, params, collectors=sel, processes=1, max_timesteps=mx, repetitions=reps)
+    cls = BMOwnExecute if variant == 'own_execute' else BMSwap if variant == 'swap_collector' else BMNested if variant == 'nested' else BM
+    BM.inner = []
+    if hx.P.get('positional'):
+        # the documented parameter order, passed positionally: (model_cls, parameters, collectors, processes, max_timesteps, repetitions)
+        res = B.batch_run(cls, params, sel, 1, mx, reps)
+    else:
+        res = B.batch_run(cls, params, collectors=sel, processes=1, max_timesteps=mx, repetitions=reps)
+    for inner in BM.inner:
+        if inner != [[("probe", 7, 0)], [("probe", 8, 0)]]:
+            return hx.end(hx.fail("result of a batch run from inside an execution", got=inner))
     runs = [(a, b) for _ in range(reps) for a in avals for b in range(nb)]
     steps = stop if stop < mx else mx        # at timestep `stop` the stopper (priority 5) completes before collectors run
     if variant == 'own_execute' and steps > 1:
@@ -283,7 +324,8 @@ def obligations(tier):
            {"collectors": "c", "R": 1, "T": 2, "own_timestep": True},
            {"collectors": "c", "R": 1, "T": 1, "sibling": "dict"}, {"collectors": "c", "R": 1, "T": 1, "sibling": "plist"},
            {"collectors": "c", "R": 1, "T": 1, "edited_list": True},
-           {"collectors": "c", "R": 1, "T": 3, "model": "own_execute"}, {"collectors": "c", "R": 1, "T": 3, "model": "swap_collector"}],
+           {"collectors": "c", "R": 1, "T": 3, "model": "own_execute"}, {"collectors": "c", "R": 1, "T": 3, "model": "swap_collector"},
+           {"collectors": "c", "R": 1, "T": 2, "model": "nested"}, {"collectors": ["c", "d"], "R": 2, "T": 2, "positional": True}],
           labels=("three_runs", "completes_before_limit", "limit_before_completion"), timeout=1200, encoded=enc),
         X("parallel_any_order", parallel_any_order,
           parts=[{"na": a, "nb": b, "reps": r, "procs": p} for (a, b, r) in shapes for p in (2,)] + [{"na": 2, "nb": 1, "reps": 1, "procs": 16}],
